@@ -305,3 +305,12 @@ package tracker
 //@   ensures #learners [C13 C19] ids_of(result.Learners, p.Learners)
 //@   ensures #learners-next [C13 C19] ids_of(result.LearnersNext, p.LearnersNext)
 //@   ensures #auto-leave [C13] result.AutoLeave != nil && deref(result.AutoLeave) == p.AutoLeave
+
+//@ -- VoterNodes: a fresh sorted list (used for logging only)
+//@ func tracker.ProgressTracker.VoterNodes
+//@   frame elems uint64:
+//@   frame elems quorum.MajorityConfig:
+//@   requires p != nil
+//@   loop 1 invariant #fill len(nodes) == iter && fresh(nodes)
+//@   loop 1 invariant #frame allocframe("E$uint64")
+//@   ensures #fresh len(result) > 0 ==> fresh(result)
